@@ -264,7 +264,7 @@ fn execute(atoms: &Atoms, scn: &Scenario, cas: &std::path::Path, prefix: &[usize
             .run_until(async move {
                 for (si, spec) in scn.sessions.iter().enumerate() {
                     let explore = si + 1 == nsess;
-                    let r = std::panic::AssertUnwindSafe(run_session(atoms, spec, cas, pool.clone(), &store2, explore, prefix, budget, obs_ref)).catch_unwind().await;
+                    let r = std::panic::AssertUnwindSafe(run_session(atoms, spec, cas, pool.clone(), &store2, explore, scn.family == "inject-conc", prefix, budget, obs_ref)).catch_unwind().await;
                     if let Err(p) = r {
                         obs_ref.panic = Some(format!("{} @ {}", vcore::util::panic_text(&p), vcore::util::last_panic_loc()));
                         break;
@@ -347,7 +347,7 @@ async fn settle(store: &Store, done_flag: &Arc<Mutex<Option<Result<(), String>>>
 }
 
 #[allow(clippy::too_many_arguments)]
-async fn run_session(atoms: &Atoms, spec: &SessionSpec, cas: &std::path::Path, pool: Arc<ThreadPool>, store: &Store, explore: bool, prefix: &[usize], budget: usize, obs: &mut ExecObs) {
+async fn run_session(atoms: &Atoms, spec: &SessionSpec, cas: &std::path::Path, pool: Arc<ThreadPool>, store: &Store, explore: bool, concurrent_mode: bool, prefix: &[usize], budget: usize, obs: &mut ExecObs) {
     let config = make_config(cas, spec.salt);
     let client: Arc<dyn Client + Send + Sync> = Arc::new(store.clone());
     let session = match FileUploadSession::new_with_client(config, pool, None, client, false).await {
@@ -363,36 +363,53 @@ async fn run_session(atoms: &Atoms, spec: &SessionSpec, cas: &std::path::Path, p
         obs.base_shard_bytes = g.shard_bytes_ok;
     }
     let ops = driver_ops(atoms, spec);
-    let mut cleaners: Vec<Option<_>> = (0..spec.files.len()).map(|_| None).collect();
+    let nfiles = spec.files.len();
+    let concurrent = concurrent_mode && explore && nfiles >= 2;
+    // per-file queues for the concurrent mode (ops of one file stay in order; ops of different files may overlap)
+    let mut queues: Vec<std::collections::VecDeque<DriverOp>> = (0..nfiles).map(|_| Default::default()).collect();
+    for op in &ops {
+        match op {
+            DriverOp::Add(i, _) | DriverOp::Finish(i) => queues[*i].push_back(op.clone()),
+            DriverOp::Finalize => {},
+        }
+    }
+    let mut cleaners: Vec<Option<_>> = (0..nfiles).map(|_| None).collect();
     let mut session_opt = Some(session);
     let mut all_ok = true;
     let mut op_idx = 0usize;
-    // the driver op currently running (spawned locally so the explorer loop can interleave releases)
-    let mut inflight: Option<(String, tokio::task::JoinHandle<()>)> = None;
-    let done: Arc<Mutex<Option<Result<(), String>>>> = Arc::new(Mutex::new(None));
-    type CleanerBox = Arc<Mutex<Vec<Option<Box<dyn std::any::Any>>>>>;
-    let _unused: Option<CleanerBox> = None;
+    let mut finalize_issued = false;
+    // driver ops currently running (spawned locally so that the explorer loop can interleave releases and,
+    // in concurrent mode, a second file's operation)
+    struct Inflight {
+        file: Option<usize>,
+        name: String,
+        done: Arc<Mutex<Option<Result<(), String>>>>,
+    }
+    let mut inflight: Vec<Inflight> = vec![];
+    let dummy_done: Arc<Mutex<Option<Result<(), String>>>> = Arc::new(Mutex::new(None));
     loop {
-        settle(store, &done).await;
-        // collect a finished driver op
-        if let Some((name, _h)) = &inflight {
-            let r = done.lock().unwrap().take();
+        settle(store, &dummy_done).await;
+        // collect finished driver ops
+        let mut k = 0;
+        while k < inflight.len() {
+            let r = inflight[k].done.lock().unwrap().take();
             if let Some(r) = r {
                 if explore {
-                    obs.api.push((name.clone(), r.clone()));
+                    obs.api.push((inflight[k].name.clone(), r.clone()));
                 }
                 if r.is_err() {
                     all_ok = false;
                 }
-                inflight = None;
-                if !all_ok {
-                    break; // like every in-repo caller: stop using the session at the first error
-                }
+                inflight.remove(k);
+            } else {
+                k += 1;
             }
+        }
+        if !all_ok {
+            break; // like every in-repo caller: stop using the session at the first error
         }
         // options
         let pending: Vec<(usize, bool)> = store.st.lock().unwrap().pending.iter().map(|(k, v)| (*k, v.1)).collect();
-        let can_issue = inflight.is_none() && op_idx < ops.len();
         if !explore {
             // earlier sessions: fault-free, release everything as soon as it is pending
             if let Some((id, _)) = pending.first() {
@@ -401,8 +418,20 @@ async fn run_session(atoms: &Atoms, spec: &SessionSpec, cas: &std::path::Path, p
                 continue;
             }
         }
-        let mut options: Vec<(String, u8, usize)> = vec![]; // (label, kind 0 issue / 1 ok / 2 err, id)
-        if can_issue {
+        let mut options: Vec<(String, u8, usize)> = vec![]; // (label, kind 0 issue-in-order / 3 issue next op of file id / 4 finalize / 1 ok / 2 err, id)
+        if concurrent {
+            let busy: Vec<usize> = inflight.iter().filter_map(|x| x.file).collect();
+            if inflight.len() < 2 {
+                for f in 0..nfiles {
+                    if !busy.contains(&f) && !queues[f].is_empty() {
+                        options.push((format!("issue next op of file{f}"), 3, f));
+                    }
+                }
+            }
+            if inflight.is_empty() && queues.iter().all(|q| q.is_empty()) && !finalize_issued {
+                options.push(("issue finalize".into(), 4, 0));
+            }
+        } else if inflight.is_empty() && op_idx < ops.len() {
             options.push((format!("issue op {op_idx}"), 0, 0));
         }
         if explore {
@@ -416,11 +445,10 @@ async fn run_session(atoms: &Atoms, spec: &SessionSpec, cas: &std::path::Path, p
             }
         }
         if options.is_empty() {
-            if inflight.is_some() {
-                obs.hang = Some(format!("driver operation '{}' is pending, no store call is pending, nothing can make progress", inflight.as_ref().unwrap().0));
-                break;
+            if !inflight.is_empty() {
+                obs.hang = Some(format!("driver operation(s) {:?} pending, no store call is pending, nothing can make progress", inflight.iter().map(|x| x.name.clone()).collect::<Vec<_>>()));
             }
-            break; // all ops done
+            break; // all ops done (or hang)
         }
         let choice = if options.len() == 1 || !explore {
             0
@@ -436,44 +464,52 @@ async fn run_session(atoms: &Atoms, spec: &SessionSpec, cas: &std::path::Path, p
         };
         let (_label, kind, id) = options[choice].clone();
         match kind {
-            0 => {
-                let op = ops[op_idx].clone();
-                op_idx += 1;
-                let done2 = done.clone();
-                let name;
+            0 | 3 | 4 => {
+                let op = match kind {
+                    0 => {
+                        let op = ops[op_idx].clone();
+                        op_idx += 1;
+                        op
+                    },
+                    3 => queues[id].pop_front().unwrap(),
+                    _ => DriverOp::Finalize,
+                };
+                let done2: Arc<Mutex<Option<Result<(), String>>>> = Arc::new(Mutex::new(None));
+                let done3 = done2.clone();
+                let ev = store.clone();
                 match op {
                     DriverOp::Add(i, data) => {
-                        name = format!("add_data(file{i})");
                         if cleaners[i].is_none() {
                             cleaners[i] = Some(Arc::new(tokio::sync::Mutex::new(Some(session_opt.as_ref().unwrap().start_clean(format!("file{i}"))))));
                         }
                         let c = cleaners[i].clone().unwrap();
-                        let h = tokio::task::spawn_local(async move {
+                        tokio::task::spawn_local(async move {
                             let mut g = c.lock().await;
                             let r = g.as_mut().unwrap().add_data(&data).await.map_err(|e| format!("{e:?}"));
-                            *done2.lock().unwrap() = Some(r);
+                            *done3.lock().unwrap() = Some(r);
+                            ev.bump();
                         });
-                        inflight = Some((name, h));
+                        inflight.push(Inflight { file: Some(i), name: format!("add_data(file{i})"), done: done2 });
                     },
                     DriverOp::Finish(i) => {
-                        name = format!("finish(file{i})");
                         if cleaners[i].is_none() {
                             cleaners[i] = Some(Arc::new(tokio::sync::Mutex::new(Some(session_opt.as_ref().unwrap().start_clean(format!("file{i}"))))));
                         }
                         let c = cleaners[i].take().unwrap();
-                        let h = tokio::task::spawn_local(async move {
+                        tokio::task::spawn_local(async move {
                             let cl = c.lock().await.take().unwrap();
                             let r = cl.finish().await.map(|_| ()).map_err(|e| format!("{e:?}"));
-                            *done2.lock().unwrap() = Some(r);
+                            *done3.lock().unwrap() = Some(r);
+                            ev.bump();
                         });
-                        inflight = Some((name, h));
+                        inflight.push(Inflight { file: Some(i), name: format!("finish(file{i})"), done: done2 });
                     },
                     DriverOp::Finalize => {
-                        name = "finalize".to_string();
+                        finalize_issued = true;
                         let s = session_opt.take().unwrap();
                         let metrics_slot: Arc<Mutex<Option<deduplication::DeduplicationMetrics>>> = Arc::new(Mutex::new(None));
                         let ms = metrics_slot.clone();
-                        let h = tokio::task::spawn_local(async move {
+                        tokio::task::spawn_local(async move {
                             let r = s.finalize().await;
                             let r = match r {
                                 Ok(m) => {
@@ -482,9 +518,10 @@ async fn run_session(atoms: &Atoms, spec: &SessionSpec, cas: &std::path::Path, p
                                 },
                                 Err(e) => Err(format!("{e:?}")),
                             };
-                            *done2.lock().unwrap() = Some(r);
+                            *done3.lock().unwrap() = Some(r);
+                            ev.bump();
                         });
-                        inflight = Some((name, h));
+                        inflight.push(Inflight { file: None, name: "finalize".into(), done: done2 });
                         // wait for finalize through the normal loop; pick the metrics up at the end
                         FINAL_METRICS.with(|f| *f.borrow_mut() = Some(metrics_slot));
                     },
@@ -500,9 +537,10 @@ async fn run_session(atoms: &Atoms, spec: &SessionSpec, cas: &std::path::Path, p
             _ => unreachable!(),
         }
     }
+    let all_issued = if concurrent { finalize_issued } else { op_idx == ops.len() };
     if explore {
         obs.all_api_ok = all_ok && obs.hang.is_none() && !obs.replay_diverged;
-        obs.finalized = all_ok && op_idx == ops.len() && inflight.is_none();
+        obs.finalized = all_ok && all_issued && inflight.is_empty();
         if let Some(slot) = FINAL_METRICS.with(|f| f.borrow_mut().take()) {
             obs.metrics = *slot.lock().unwrap();
         }
@@ -606,6 +644,19 @@ fn scenarios(tier: Tier) -> Vec<Scenario> {
         },
         one(vec![f(&[], 0), f(&[0, 0, 0], 0)]),
     ];
+    // concurrent mode: operations of two different files may be in flight at once (await-point interleaving
+    // on the single-threaded runtime), the explorer also chooses which file's next operation to issue
+    let conc = |files: Vec<FileSpec>| Scenario { family: "inject-conc".into(), sessions: vec![SessionSpec::seq(files)] };
+    v.push(conc(vec![f(&[0, 1, 2], 0), f(&[3, 4, 5], 0)]));
+    v.push(conc(vec![f(&[0, 1], 0), f(&[0, 1], 0)]));
+    if tier == Tier::Thorough {
+        v.push(conc(vec![f(&[0], 0), f(&[1], 2), f(&[2, 3, 4], 0)]));
+        v.push(conc(vec![f(&[0, 1, 2, 3], 0), f(&[4], 0)]));
+        v.push(Scenario {
+            family: "inject-conc".into(),
+            sessions: vec![SessionSpec::seq(vec![f(&[0, 1, 2, 3], 0)]), SessionSpec::seq(vec![f(&[0, 1, 4], 0), f(&[2, 3, 5], 0)])],
+        });
+    }
     if tier == Tier::Thorough {
         v.extend(vec![
             one(vec![f(&[0, 1, 2, 3, 4, 5], 2)]),
@@ -790,7 +841,7 @@ fn main() {
         for cfg in configs(args.tier) {
             for scn in scenarios(args.tier) {
                 for budget in args.tier.pick(vec![0usize, 1], vec![0, 1, 2, 99]) {
-                    let spec = json!({"cfg": cfg.to_json(), "scenario": scn.to_json(), "budget": budget, "cap": args.tier.pick(1500, 60000)});
+                    let spec = json!({"cfg": cfg.to_json(), "scenario": scn.to_json(), "budget": budget, "cap": args.tier.pick(12000, 150000)});
                     jobs.push(Job { name: format!("{}/{}/b{budget}", cfg.name, scn.label()), env: cfg.env(), args: vec!["--worker".into(), spec.to_string()] });
                 }
             }
